@@ -84,7 +84,11 @@ def pyval(v):
     if k == 'text':
         return s_of(v['c'])
     if k == 'dec':
+        if v.get('fl'):
+            return float(v['m'])            # the whole number as a float (1.0): its text form is that of the integer
         return v['m'] if v['s'] == 0 else float(Decimal(v['m']).scaleb(-v['s']))
+    if k == 'bool':
+        return bool(v['b'])
     if k == 'date':
         return EPOCH + datetime.timedelta(days=v['d'])
     return None
